@@ -10,6 +10,7 @@ import (
 	"runtime"
 	"strings"
 	"sync"
+	"sync/atomic"
 	"time"
 
 	p9p "github.com/frobnitzem/go-p9p"
@@ -38,7 +39,7 @@ func init() {
 		Shards:    shards(8, 16),
 		Timeout:   timeouts(12*time.Minute, 90*time.Minute),
 		MinEvals:  300,
-		Required:  []string{"method:Auth", "method:Attach", "method:Walk", "method:Open", "method:Create", "method:Read", "method:Write", "method:Stat", "method:WStat", "method:Clunk", "method:Remove", "error_results", "clipped_reads", "clipped_writes", "walk_limit_local", "concurrent_cells", "concurrent_calls_own_result", "abandon_cells", "wrap_cells"},
+		Required:  []string{"method:Auth", "method:Attach", "method:Walk", "method:Open", "method:Create", "method:Read", "method:Write", "method:Stat", "method:WStat", "method:Clunk", "method:Remove", "error_results", "clipped_reads", "clipped_writes", "walk_limit_local", "concurrent_cells", "concurrent_calls_own_result", "abandon_cells", "wrap_cells", "deadline_then_plain", "many_blocked_cells"},
 		Run:       runC09,
 	})
 }
@@ -309,6 +310,18 @@ func runC09(w *mon.W) {
 	if pair != nil {
 		pair.close()
 		pair = nil
+	}
+	// ---- a call with a deadline, then (the connection's clock past that deadline) calls without one
+	for i := 0; i < w.Scale(8, 200); i++ {
+		if w.Mine(i) {
+			c09DeadlineThenPlain(w, i)
+		}
+	}
+	// ---- hundreds of calls blocked inside S at once, released by one more call
+	for i := 0; i < w.Scale(2, 40); i++ {
+		if w.Mine(i) {
+			c09ManyBlocked(w, []int{130, 200, 300, 520}[i%4])
+		}
 	}
 	// ---- an abandoned call answered late must not stall the other callers
 	for i := 0; i < w.Scale(16, 400); i++ {
@@ -1038,4 +1051,153 @@ func c09Wrap(w *mon.W) {
 	}
 	w.Count("wrap_calls", 65535+66000)
 	w.NT("wrap")
+}
+
+// c09DeadlineThenPlain: both ends of the connection honour write deadlines against a virtual
+// clock. A call whose context has a deadline goes through; the clock then moves past that
+// deadline (but stays within the library's 30 s default) and calls without a deadline must
+// still reach S and come back with S's result.
+func c09DeadlineThenPlain(w *mon.W, no int) {
+	w.Case("C09 deadline-then-plain #%d", no)
+	p, err := newC09Pair(1<<20, 0)
+	if err != nil {
+		w.Inconclusive("pair: %v", err)
+		return
+	}
+	defer p.close()
+	w.Eval()
+	w.Count("deadline_then_plain", 1)
+	var skew int64
+	clock := func() time.Time { return time.Now().Add(time.Duration(atomic.LoadInt64(&skew))) }
+	p.cend.Clock, p.send.Clock = clock, clock
+	p.S.mu.Lock()
+	p.S.byUID = true
+	p.S.mu.Unlock()
+	dctx, cancel := context.WithDeadline(context.Background(), time.Now().Add(10*time.Second))
+	defer cancel()
+	st, derr := p.cli.Stat(dctx, 41)
+	if derr != nil || st.Name != "uid-41" {
+		if dctx.Err() != nil {
+			w.Inconclusive("the real 10 s deadline was missed")
+			return
+		}
+		w.Violate("mismatch", "C09:deadline-call", fmt.Sprintf("Stat with a deadline context returned %v, %q", derr, st.Name), nil)
+		return
+	}
+	if no%2 == 1 {
+		cancel()
+	}
+	atomic.StoreInt64(&skew, int64(15*time.Second))
+	for k := 0; k < 3; k++ {
+		uid := p9p.Fid(42 + k)
+		var st p9p.Dir
+		var err error
+		fin := make(chan struct{})
+		go func() { st, err = p.cli.Stat(context.Background(), uid); close(fin) }()
+		q := mon.AwaitQuiesce(fin)
+		if q.Hung {
+			w.Violate("hang", "C09:plain-call-after-deadline-hangs:"+q.Sites, "a call without deadline, made after an earlier call's deadline passed, does not return; blocked at "+q.Sites, nil)
+			return
+		}
+		if !q.Done {
+			w.Inconclusive("watchdog")
+			return
+		}
+		if err != nil || st.Name != fmt.Sprintf("uid-%d", uid) {
+			w.Violate("mismatch", "C09:plain-call-after-deadline", fmt.Sprintf("plain call #%d made after an earlier call's deadline had passed: S's result did not come back: err=%v name=%q (calls that reached S: %d)", k+1, err, st.Name, len(p.S.takeCalls())), nil)
+			return
+		}
+	}
+	w.NT(fmt.Sprintf("deadline/%d", no%2))
+}
+
+// c09ManyBlocked: n calls are blocked inside S at the same time; one more call (which S
+// serves at once) must still get through, and then everybody gets its own result.
+func c09ManyBlocked(w *mon.W, n int) {
+	w.Case("C09 many-blocked n=%d", n)
+	p, err := newC09Pair(1<<21, 0)
+	if err != nil {
+		w.Inconclusive("pair: %v", err)
+		return
+	}
+	defer p.close()
+	w.Eval()
+	w.Count("many_blocked_cells", 1)
+	hold := make(chan struct{})
+	released := false
+	defer func() {
+		if !released {
+			close(hold)
+		}
+	}()
+	p.S.mu.Lock()
+	p.S.byUID = true
+	p.S.hold = hold
+	p.S.holdFid = 0
+	p.S.mu.Unlock()
+	type res struct {
+		name string
+		err  error
+	}
+	results := make([]res, n)
+	var wg sync.WaitGroup
+	for i := 0; i < n; i++ {
+		wg.Add(1)
+		go func(i int) {
+			defer wg.Done()
+			st, err := p.cli.Stat(context.Background(), p9p.Fid(1000+i))
+			results[i] = res{st.Name, err}
+		}(i)
+	}
+	if !settle() {
+		w.Inconclusive("watchdog")
+		return
+	}
+	p.S.mu.Lock()
+	in := p.S.inCall
+	p.S.mu.Unlock()
+	w.Max("max_calls_blocked_in_S", int64(in))
+	if in != n {
+		w.Violate("mismatch", "C09:calls-not-delivered", fmt.Sprintf("%d calls were issued concurrently, only %d are inside S at quiescence", n, in), nil)
+		return
+	}
+	// one more call, not held: only the calls already inside S wait on hold
+	p.S.mu.Lock()
+	p.S.hold = nil
+	p.S.mu.Unlock()
+	var st p9p.Dir
+	var serr error
+	fin := make(chan struct{})
+	go func() { st, serr = p.cli.Stat(context.Background(), 7); close(fin) }()
+	q := mon.AwaitQuiesce(fin)
+	if q.Hung {
+		w.Violate("hang", "C09:call-not-delivered-while-many-blocked", fmt.Sprintf("with %d calls blocked inside S one more call is never delivered (S would serve it at once); blocked at %s", n, q.Sites), nil)
+		return
+	}
+	if !q.Done {
+		w.Inconclusive("watchdog")
+		return
+	}
+	if serr != nil || st.Name != "uid-7" {
+		w.Violate("mismatch", "C09:concurrent-result", fmt.Sprintf("extra call returned %v %q", serr, st.Name), nil)
+		return
+	}
+	released = true
+	close(hold)
+	done := make(chan struct{})
+	go func() { wg.Wait(); close(done) }()
+	if q := mon.AwaitQuiesce(done); !q.Done {
+		if q.Hung {
+			w.Violate("hang", "C09:blocked-calls-never-return", fmt.Sprintf("%d calls released inside S do not all return; blocked at %s", n, q.Sites), nil)
+		}
+		return
+	}
+	for i, r := range results {
+		if r.err != nil || r.name != fmt.Sprintf("uid-%d", 1000+i) {
+			w.Violate("mismatch", "C09:concurrent-result", fmt.Sprintf("blocked call #%d returned %v %q", i, r.err, r.name), nil)
+			return
+		}
+	}
+	w.Count("concurrent_calls_own_result", int64(n))
+	w.NT(fmt.Sprintf("manyblocked/%d", n))
 }
